@@ -76,6 +76,7 @@ class C08(Property):
     ID = "C08"
     SESSIONS = ["s0", "s1"]
     RUNS = {"quick": (5000, 2000), "thorough": (120000, 40000)}
+    MUST_REACH = {"probes": ["empty_list", "requested_value_absent", "intersection_second_list_repeats_id", "split_to_files", "merge_from_path", "restart_through_em_file", "missing_values"], "faults": ["crash", "eio_read", "open_fail"]}
 
     def config(self, rng, tier, faulty):
         cfg = {
